@@ -6,7 +6,7 @@ from checks import timer_phase
 
 MANIFEST = dict(
     text='Kernel-checked: a request whose (source, sequence) is in the receive-transaction table leaves the ENTIRE state identical and is answered with the cached datagram (or not at all if none was produced) - for every message and state; keys compare exactly; the retention expiry releases the entry. Tie: differential run incl. duplicates from several peers using equal sequence numbers and injected retention expiries; monitor checks no driver call / no state change / byte-identical re-sent datagram on the real server.',
-    note="Transaction keys are modelled as (peer, sequence) pairs; the string keys fmt.Sprintf(format, addr, seq) at the sites regenerated from the source are proved injective for ANY address string and sequence number (C06_string_key_injective), and the rendering model is compared with the keys the real constructors build (IPv4/IPv6/zone addresses, sequence extremes). In the differential run timers are injected events; a separate real-timer phase (retention windows of 150-800 ms, duplicates inside the window, re-use of a sequence number after it, duplicates of the re-use) runs the real AfterFunc callbacks and checks the property on the time-stamped trace. With time (model/Timed.v): where transaction.go arms its timers, what an expiry posts and how the loop dispatches it is read from the source on every run (TimerGen.v, C06_timer_sites); the retention window is fixed at T*(N+1) from the first copy whatever follows (C06_retention_window_fixed), the bookkeeping is released at its end answered or not (C06_released_after_window), a sender's expiry never touches the receive table even for an equal key (C06_tx_expiry_leaves_receive_table); the variants 'armed when the response is sent' and 'posted as an RX event' are refuted. ",
+    note="Peers include alias sockets (same host, other source port: a different source address, never a retransmission). Responses lost in the socket are model events (EvRecvWF: the datagram is handled while every write fails; theorems C06_lost_response_same_state, C06_lost_heartbeat_response_retained) and part of the model-compared histories; the byte-identity monitor takes the first copy that left the UPF as the original. Transaction keys are modelled as (peer, sequence) pairs; the string keys fmt.Sprintf(format, addr, seq) at the sites regenerated from the source are proved injective for ANY address string and sequence number (C06_string_key_injective), and the rendering model is compared with the keys the real constructors build (IPv4/IPv6/zone addresses, sequence extremes). In the differential run timers are injected events; a separate real-timer phase (retention windows of 150-800 ms, duplicates inside the window, re-use of a sequence number after it, duplicates of the re-use) runs the real AfterFunc callbacks and checks the property on the time-stamped trace. With time (model/Timed.v): where transaction.go arms its timers, what an expiry posts and how the loop dispatches it is read from the source on every run (TimerGen.v, C06_timer_sites); the retention window is fixed at T*(N+1) from the first copy whatever follows (C06_retention_window_fixed), the bookkeeping is released at its end answered or not (C06_released_after_window), a sender's expiry never touches the receive table even for an equal key (C06_tx_expiry_leaves_receive_table); the variants 'armed when the response is sent' and 'posted as an RX event' are refuted. ",
     technique='Coq step lemmas (duplicate = identity on the state) + differential run + byte-equality monitor',
     design='4/C06')
 
